@@ -4,7 +4,7 @@ breaks (and, if that one stays silent, the other checks recorded as catching it)
 change and a summary; writes /verif/seeded/MATRIX.json. /repo must be clean and otherwise idle."""
 import json, os, subprocess, sys, re, time
 os.chdir('/verif')
-ids = sys.argv[1:] or sorted(d for d in os.listdir('seeded') if os.path.isdir(f'seeded/{d}'))
+ids = sys.argv[1:] or sorted(d for d in os.listdir('seeded') if os.path.isfile(f'seeded/{d}/meta.json'))
 controls = {'own-C02-remove-noacct', 'own-C12-nextback'}
 res = {}
 assert subprocess.run(['git','-C','/repo','diff','--quiet']).returncode == 0, '/repo has uncommitted changes'
